@@ -18,7 +18,7 @@ def run(ctx):
     L = 20
     if ctx.thorough:
         menu = [("k2a", [1, L], 2), ("k2b", [L], 1), ("k2m1", [1, L], 2), ("k2mat", [1, L], 1),
-                ("k2eps", [L], 1), ("k2w3", [L], 1), ("k3a", [L], 1), ("k3b", [L], 1), ("k2seed", [L], 1),
+                ("k2eps", [L], 1), ("k2w3", [L], 1), ("k3a", [L], 1), ("k3b", [L], 0), ("k2seed", [L], 1),
                 ("k2tiny", [L], 1), ("k2huge", [L], 1), ("k2eps2", [L], 1), ("k2off", [L], 1)]
     else:
         menu = [("k2a", [L], 1), ("k2m1", [2, L], 1), ("k2mat", [L], 0), ("k2seed", [L], 0), ("k2tiny", [L], 0),
